@@ -57,14 +57,14 @@ LIFE_SHAPES_Q = [
 ]
 
 
-def baseline_points(desc, monitor_classes=()):
-    x = Execution(desc, [], monitor_classes).run()
+def baseline_points(desc, monitor_classes=(), shim_factory=None):
+    x = Execution(desc, [], monitor_classes, shim=(shim_factory() if shim_factory else None)).run()
     return [list(p) for p in x.w.ch.points] if x.w is not None else []
 
 
-def split_units(desc, bound, kinds, extra=None):
+def split_units(desc, bound, kinds, extra=None, shim_factory=None):
     """Units for one world: the baseline alone, then one unit per first deviation."""
-    pts = baseline_points(desc)
+    pts = baseline_points(desc, shim_factory=shim_factory)
     us = [dict(desc=desc, bound=bound, kinds=kinds, start=[], solo=(bound > 0), **(extra or {}))]
     if bound > 0:
         for i, (kind, label, n) in enumerate(pts):
